@@ -83,5 +83,11 @@ TEXTS = {
         level_text="Generated-configuration search: ~120 generated hook sets per quick run (~3700 thorough) plus fixed sets, each executed on the real environment state machine and hook machinery; the oracle checks every started call against the documented order, weight and await semantics. Exploration level: the space of hook sets x walks is unbounded.",
         level_note="DESTROY / after_DESTROY hooks are undocumented teardown specials and outside the generator; hook tasks are covered in C09; probe reports of calls awaited later are asynchronous, so their arrival order is not used as start order.",
     ),
+    "C09": dict(
+        engine="simworld",
+        technique="property-based fault enumeration (rapid): generated hook sets with generated failing subsets (call error, call timeout, hook task non-zero exit / involuntary termination / hook timeout; critical or not; alone or simultaneous) on a drawn transition of the whole real core; oracle = model of one transition (first critical failure decides cancel vs. report-only) over probe reports, TriggerHook/transition commands, the core's transition events and API replies; -race core in the thorough tier",
+        level_text="Fault enumeration by generated failure assignments: the moment x transition matrix of a single critical failure as fixed cases on every run plus generated sets (~130 quick, ~3600 thorough + 120 under the race detector). Exercises the real handleHooks / AwaitAll / runTasksAsHooks and the simulated executors' hook-task protocol (TriggerHook reply, BASIC_TASK_TERMINATED, final status).",
+        level_note="Hook tasks are placed only at moments that occur first in the transition under test (a hook task runs once per environment); later weights of the failing pass at enter_/after_ are not claimed.",
+    ),
 }
 NA_REASONS = {}
